@@ -723,9 +723,20 @@ impl TypeAggregator {
                 Ok(ValueType::Borrow(self.remap_resource(types, id, checker)?))
             }
             ValueType::Own(id) => Ok(ValueType::Own(self.remap_resource(types, id, checker)?)),
-            ValueType::Defined(id) => Ok(ValueType::Defined(
-                self.remap_defined_type(types, id, checker)?,
-            )),
+            ValueType::Defined(id) => {
+                // A merge may have replaced this defined type with a value type that is
+                // not a defined type (e.g. an alias of a primitive type that was merged
+                // with the primitive type itself).
+                if let Some(Type::Value(ty)) =
+                    self.remapped.get(&Type::Value(ValueType::Defined(id)))
+                {
+                    return Ok(*ty);
+                }
+
+                Ok(ValueType::Defined(
+                    self.remap_defined_type(types, id, checker)?,
+                ))
+            }
         }
     }
 
